@@ -64,14 +64,40 @@ package baseorbitdb
 //@   ensures err == nil ==> a != nil && a == parsedAddr(path)
 //@   modifies nothing
 
-// createStore: body not verified here (constructors, access-controller resolution); only a ghost count of
-// created stores and its frame are assumed.
+// createStore (C09 C03 C05): the store is built on the cache directory of ITS OWN address, with the access
+// controller resolved from the address it was handed, on the instance's pubsub and direct channel, and is
+// registered under its address. The store constructor (a table of function values) and the access
+// controller resolution are assumed contracts.
 //@ ghost field storesCreated(Int) Int
 //@ noeffect (*berty.tech/go-orbit-db/baseorbitdb.orbitDB).storeTypesNames
+//@ spec func acResolved(addr Str) Iface
+//@ spec func stCacheOf(s Iface) Iface
+//@ spec func stACOf(s Iface) Iface
+//@ spec func stAddrOf(s Iface) Iface
+//@ pure strings.TrimPrefix
+//@ noeffect berty.tech/go-orbit-db/accesscontroller.WithLogger
+//@ noeffect (berty.tech/go-orbit-db/accesscontroller.ManifestParams).GetAllAccess
+//@ noeffect (*berty.tech/go-orbit-db/accesscontroller.CreateAccessControllerOptions).GetAllAccess
+//@ extern berty.tech/go-orbit-db/accesscontroller/utils.Resolve as Resolve(ctx, db, manifestAddress, params, options) (ac, err)
+//@   ensures err == nil ==> ac != nil && ac == acResolved(manifestAddress)
+//@   modifies nothing
+//@ extern param:(*orbitDB).createStore.storeFunc as storeFunc(ipfs, identity, addr, opts) (store, err)
+//@   requires opts != nil
+//@   ensures err == nil ==> store != nil && stCacheOf(store) == opts.Cache && stACOf(store) == opts.AccessController && stAddrOf(store) == addr
+//@   ensures storesCreated(0) == old(storesCreated(0)) + 1
+//@   modifies storesCreated(0)
 //@ func (*orbitDB).createStore
-//@   trusted
-//@   ensures storesCreated(o) == old(storesCreated(o)) + 1
-//@   modifies storesCreated(o), mapof(o.stores)
+//@   props C09 C03 C05 C14
+//@   flag nilcalls
+//@   requires o.logger != nil && o.cache != nil && o.stores != nil && options != nil && parsedDBAddress != nil
+//@   requires options.AccessController != nil ==> ref(options.AccessController) != 0
+//@   ghost A0 := options.AccessControllerAddress
+//@   ensures result1 == nil ==> result != nil && stAddrOf(result) == parsedDBAddress
+//@   ensures @C09 @C05 result1 == nil ==> stCacheOf(result) == cacheFor(o.cache, o.directory, addrStr(parsedDBAddress))
+//@   ensures @C03 @C14 result1 == nil && pcall("strings.TrimPrefix", A0, "/ipfs/") != "" ==> stACOf(result) == acResolved(pcall("strings.TrimPrefix", A0, "/ipfs/"))
+//@   ensures storesCreated(0) == old(storesCreated(0)) || storesCreated(0) == old(storesCreated(0)) + 1
+//@   ensures result1 == nil ==> storesCreated(0) == old(storesCreated(0)) + 1
+//@   modifies *
 
 // DetermineAddress: see below for its functional contract; for its callers it touches only the options it is
 // given and content-addressed storage.
@@ -89,7 +115,8 @@ package baseorbitdb
 //@ func (*orbitDB).Create
 //@   props C14
 //@   flag nilcalls
-//@   requires o.logger != nil && o.cache != nil
+//@   requires o.logger != nil && o.cache != nil && o.stores != nil
+//@   requires options != nil && options.AccessController != nil ==> ref(options.AccessController) != 0
 //@   ghost ow := options != nil && options.Overwrite != nil && deref(options.Overwrite)
 //@   assert @ before call o.addManifestToCache#1: haveDB ==> ow
 //@   assert @ before call o.Open#1: dsHas(cacheFor(o.cache, o.directory, addrStr(dbAddress)))[mkey(dbAddress)] && (haveDB ==> ow)
@@ -106,15 +133,16 @@ package baseorbitdb
 //@ func (*orbitDB).Open
 //@   props C14 C03
 //@   flag nilcalls
-//@   requires o.logger != nil && o.cache != nil
-//@   ghost S0 := storesCreated(o)
+//@   requires o.logger != nil && o.cache != nil && o.stores != nil
+//@   requires options != nil && options.AccessController != nil ==> ref(options.AccessController) != 0
+//@   ghost S0 := storesCreated(0)
 //@   ghost lo := options != nil && options.LocalOnly != nil && deref(options.LocalOnly)
 //@   ghost cr := options != nil && options.Create != nil && deref(options.Create)
 //@   ghost st := options != nil && options.StoreType != nil && deref(options.StoreType) != ""
 //@   ghost dir := (options != nil && options.Directory != nil) ? deref(options.Directory) : o.directory
-//@   ensures !addrValid(dbAddress) && !cr ==> result1 != nil && storesCreated(o) == S0
-//@   ensures !addrValid(dbAddress) && cr && !st ==> result1 != nil && storesCreated(o) == S0
-//@   ensures addrValid(dbAddress) && lo && !old(dsHas(cacheFor(o.cache, dir, addrStr(parsedAddr(dbAddress))))[mkey(parsedAddr(dbAddress))]) ==> result1 != nil && storesCreated(o) == S0
+//@   ensures !addrValid(dbAddress) && !cr ==> result1 != nil && storesCreated(0) == S0
+//@   ensures !addrValid(dbAddress) && cr && !st ==> result1 != nil && storesCreated(0) == S0
+//@   ensures addrValid(dbAddress) && lo && !old(dsHas(cacheFor(o.cache, dir, addrStr(parsedAddr(dbAddress))))[mkey(parsedAddr(dbAddress))]) ==> result1 != nil && storesCreated(0) == S0
 //@   assert @ before call o.createStore#1: lo ==> haveDB
 //@   assert @ before call o.createStore#1: options.AccessControllerAddress == manifest.AccessController
 //@   modifies *
